@@ -10,7 +10,7 @@ import ClairModel.Proofs.TarFSSub
 import ClairModel.Proofs.TarFSExtract
 import ClairModel.Proofs.TarFSReject
 import ClairModel.Proofs.TarFSDir
-import ClairModel.Proofs.LayerFS
+import ClairModel.Proofs.TarFSLayer
 
 -- every variable of a property statement is bound explicitly: a misspelt name is an error, not a new variable
 set_option autoImplicit false
